@@ -228,6 +228,31 @@ def long_history(rng, ident, n):
     return scn.line("scn", ident, s, extra="nt=1 family=long-history expectinv=%s expectreply=%s" % ("|".join(inv), ",".join(rep)))
 
 
+def concurrent_compressed(rng, ident):
+    """several compressed calls with different arguments started together on one connection: each frame carries its own
+    call's argument and each caller gets the result sent for it"""
+    k = 2 + rng.below(4)
+    ct = rng.choice([1, 1, 2])
+    s = []
+    held = rng.chance(2, 3)
+    if held:
+        # the first caller is held where it reads its context's tags - after its argument was compressed, before its frame is
+        # put together - while the others go through
+        s.append("park/CtxTags/1")
+    for i in range(1, k + 1):
+        s.append("call/c%d/%s/%s/%d/-/0/nowait" % (i, scn.M.hex(), T(scn.arg(i, 2000 + 37 * i + rng.below(500))), ct))
+        if held and i == 1:
+            s.append("waitpark/CtxTags")
+    if held:
+        s += ["waitwrites/%d" % (k - 1), "release/CtxTags"]
+    s.append("waitwrites/%d" % k)
+    exp = []
+    for i in rng.shuffle(list(range(1, k + 1))):
+        s += ["replyto/%d/%s/%d" % (i, T(scn.arg(i, rng.below(30))), ct), "await/c%d" % i]; exp.append("%d:ok" % i)
+    s.append("settle")
+    return scn.line("scn", ident, s, extra="nt=1 family=concurrent-compressed-calls expect=%s" % ",".join(exp))
+
+
 def explore(ctx):
     rng, tier = ctx["rng"], ctx["tier"]
     if ctx.get("replay"):
@@ -257,6 +282,8 @@ def explore(ctx):
             lines.append(sibling_tags(rng, "t%d" % n)); n += 1
         for _ in range({"quick": 16, "thorough": 200, "search": 40}[tier]):
             lines.append(reply_races_context_end(rng, "x%d" % n)); n += 1
+        for _ in range({"quick": 12, "thorough": 150, "search": 30}[tier]):
+            lines.append(concurrent_compressed(rng, "K%d" % n)); n += 1
         for nn in {"quick": [380], "thorough": [380, 700, 1400], "search": [380]}[tier]:
             lines.append(long_history(rng, "L%d" % n, nn)); n += 1
         for _ in range(2):
